@@ -56,8 +56,10 @@ ASSUMPTIONS = [
     'and initial barrier parameter 1e-7 handed over through opt_settings: SciPy reports gtol/xtol '
     'success on the central path, measured error <= 4e-4 on the repaired tree), none for '
     'trust-constr with its BFGS Hessian and for differential_evolution; scalers are in [0.25, 100]',
-    'COBYLA is started with rhobeg=0.3: SciPy 1.18 COBYLA returns at once with success when '
-    'x0 + rhobeg lands exactly on a bound (reproduced with scipy.optimize.minimize alone)',
+    'no optimality claim for COBYLA when the design variables have bounds: SciPy 1.18 COBYLA '
+    'with `bounds` can stop on a bound after ~12 evaluations and report success (reproduced with '
+    'scipy.optimize.minimize alone); feasibility and faithfulness are still checked',
+
     'model-left-at-returned-design is an exact bookkeeping identity (1e-9 relative)',
 ]
 MIN_NONTRIVIAL = {'quick': 4000, 'thorough': 20000}
@@ -459,8 +461,8 @@ def build_problem(case, pd, t):
     elif opt == 'COBYLA':
         drv.options['tol'] = 1e-8
         drv.options['maxiter'] = 5000
-        # SciPy's COBYLA stops at once (and reports success) when x0 + rhobeg lands exactly on a
-        # bound; the palettes use dyadic widths, so use a non-dyadic initial radius
+        # a non-dyadic initial radius, so that the first simplex does not land exactly on the
+        # dyadic bounds of the palettes (see _opt_tol for SciPy's COBYLA-with-bounds quirk)
         drv.opt_settings['rhobeg'] = 0.3
     elif opt == 'trust-constr':
         drv.options['tol'] = 1e-10
@@ -541,6 +543,12 @@ def _opt_tol(case):
     opt = case['opt']
     if opt == 'differential_evolution':
         return None
+    if opt == 'COBYLA' and case.get('dvb', 'none') != 'none':
+        # SciPy 1.18's COBYLA, given `bounds`, can stop after ~12 evaluations at a point on a
+        # bound and report success ("trust region radius reaches its lower bound") for most
+        # rhobeg values - reproduced with scipy.optimize.minimize alone on the same QP.  No
+        # optimality claim for COBYLA with design-variable bounds (feasibility is still checked).
+        return None
     if opt == 'trust-constr':
         return 5e-3 if case.get('hess', 'exact') == 'exact' else None
     return OPT_TOL
@@ -611,10 +619,7 @@ def run_one(case, ti):
         msg = str(exc)
         what = ('x0_infeasible' if 'is infeasible' in msg else
                 'bounds_not_broadcastable' if 'broadcastable' in msg else 'other')
-        V('raises', '%s_%s_size%s' % (type(exc).__name__, what,
-                                      '1' if min(len(g) for g in groups(case['pat'],
-                                                                        case['form'])) == 1
-                                      else '>1'),
+        V('raises', '%s_%s' % (type(exc).__name__, what),
           'valid problem rejected: %s: %s (at %s:%d)' % (type(exc).__name__, str(exc)[:200],
                                                         loc.filename.split('/')[-1], loc.lineno))
         return '%s:exception' % opt, 0, vio
